@@ -40,9 +40,12 @@ distinct).  They appear exactly where needed.
 -/
 import CtyModel.Lemmas.FnCall2
 import CtyModel.Lemmas.FnCallTie
+import CtyModel.Lemmas.d10FnNotNull
 namespace CtyModel
 namespace C10
 open Fn
+open Fn.D10 (Func Wrapper Entry Ans wrap run wrapRun unpredictableImpl notNull refinePanics toRefineFn
+  RefinePayloadUnmarked NullOrDefinitelyNull wrappersOK)
 
 /-- marker layers as cty's constructors build them -/
 def ArgsWF (args : List Value) : Prop := ∀ v ∈ args, v.v.markerWF = true
@@ -572,6 +575,301 @@ theorem call_unmarked_exact (spec : Spec) (tf : TypeFn) (impl : ImplFn) (args : 
     e1, e2]
   simp [withUnhandled, e3]
 
+/-! ### slice d10 — every entry point, through every wrapper
+
+`Func` is a `function.Function` (its spec and callbacks); `wrap f ws` applies a chain of the
+constructors `WithNewDescriptions` / `function.Unpredictable` (CtyModel/FnD10.lean, following
+cty/function/function.go and unpredictable.go); `run f' e args` is entry point `e` — `Call`, `Proxy()(…)`,
+`ReturnTypeForValues`, `ReturnType` (which sees unknown values of the argument types: `e.argsSeen`).
+The correspondence op `fn.wrap` diffs `wrapRun` against the real constructors and entry points. -/
+
+/-- What a chain of wrappers makes: the same parameters, flags, `RefineResult` and `Type` callback;
+`Impl` is `unpredictableImpl` iff `Unpredictable` occurs in the chain, and the original's otherwise;
+the constructors panic exactly when some `WithNewDescriptions` is handed an inadmissible number of
+descriptions, and never return an error. -/
+theorem wrappers_keep_protocol (f : Func) (ws : List Wrapper) :
+    (∀ f', wrap f ws = .ok f' → f'.spec = f.spec ∧ f'.tf = f.tf ∧
+      f'.impl = (if ws.contains .unpredictable then unpredictableImpl else f.impl)) ∧
+    ((∃ f', wrap f ws = .ok f') ↔ wrappersOK f.spec ws = true) ∧
+    ((∃ w, wrap f ws = .panic w) ↔ wrappersOK f.spec ws = false) ∧
+    (∀ e, wrap f ws ≠ .err e) := by
+  refine ⟨fun f' h => ⟨(D10.wrap_ok h).1, (D10.wrap_ok h).2.1, (D10.wrap_ok h).2.2.1⟩, ?_, ?_, ?_⟩ <;>
+    rw [D10.wrap_eq] <;> cases wrappersOK f.spec ws <;> simp
+
+/-- clause 5 at EVERY entry point: for every function `f`, every chain of wrappers `ws` around it
+and every entry point `e` — `Call`, `Proxy`, `ReturnTypeForValues`, `ReturnType` — if the `Type`
+callback was invoked and panicked, the entry point returns the `function.PanicError` for that panic
+(so: no Go panic, no value). -/
+theorem type_panic_is_error_at_every_entry (f f' : Func) (ws : List Wrapper) (e : Entry)
+    (args as : List Value) (w : String) (hw : wrap f ws = .ok f')
+    (h : Event.type as ∈ (run f' e args).2) (hp : f.tf as = .panic w) :
+    (run f' e args).1 = .err (.panicError w) :=
+  D10.run_type_event_panic e args as w hw h hp
+
+/-- … and `Type` IS invoked (once, and nothing after it) whenever the arguments the entry point checks
+are acceptable: acceptable arguments + a panicking `Type` callback = `PanicError`, at every entry
+point of every wrapped function. -/
+theorem type_panic_is_error_at_every_entry_exact (f f' : Func) (ws : List Wrapper) (e : Entry)
+    (args : List Value) (w : String) (hw : wrap f ws = .ok f')
+    (hc : f.spec.countOK (e.argsSeen args).length = true) (hap : AllPass f.spec (e.argsSeen args))
+    (ht : f.tf (typeArgs f.spec (e.argsSeen args)) = .panic w) :
+    run f' e args = (.err (.panicError w), [.type (typeArgs f.spec (e.argsSeen args))]) :=
+  D10.run_type_panic e hw hc hap ht
+
+/-- The type-level entry points of any wrapped function never let a Go panic escape. -/
+theorem type_entries_never_panic (f : Func) (args : List Value) (w : String) :
+    (run f .rtfv args).1 ≠ .panic w ∧ (run f .rt args).1 ≠ .panic w :=
+  D10.run_type_entries_no_panic f args w
+
+/-- The value-level entry points of a wrapped function let a Go panic escape only as `Call` of the
+function the wrappers made does (`go_panic_iff`: a declared refinement the builder refuses). -/
+theorem value_entries_are_call (f : Func) (args : List Value) :
+    run f .proxy args = run f .call args ∧
+    ∀ w, (run f .call args).1 = .panic w ↔ (call f.spec f.tf f.impl args).1 = .panic w :=
+  ⟨rfl, fun w => by rw [D10.run_call]; exact D10.mapOut_panic_iff _ _ w⟩
+
+/-- `Unpredictable(f)` "retains the same arguments and type checking behavior": its type-level entry
+points are `f`'s, literally. -/
+theorem unpredictable_same_type_checking (f : Func) (args : List Value) :
+    run f.unpredictable .rtfv args = run f .rtfv args ∧ run f.unpredictable .rt args = run f .rt args :=
+  ⟨rfl, rfl⟩
+
+/-- `Unpredictable(f)` "… but will return an unknown value when called": `Call` fails exactly as
+`f.ReturnTypeForValues` fails for the same arguments, and where that answers a type `t` it returns —
+before the declared refinement — an unknown value of type `t` with exactly the unhandled marks. -/
+theorem unpredictable_returns_unknown (spec : Spec) (tf : TypeFn) (args : List Value) (hT : TypeFnWF tf) :
+    (∀ e, (callUnrefined spec tf unpredictableImpl args).1 = .err e ↔
+      (returnTypeForValuesPub spec tf args).1 = .err e) ∧
+    (∀ u, (callUnrefined spec tf unpredictableImpl args).1 = .ok u ↔
+      ∃ t, (returnTypeForValuesPub spec tf args).1 = .ok t ∧
+        u = withMarkSets (Value.unknown t) (unhandledMarkSets spec args)) ∧
+    (∀ u, (callUnrefined spec tf unpredictableImpl args).1 = .ok u → spec.countOK args.length = true →
+      u.isKnown = false ∧ ∀ m, m ∈ u.marks ↔ Unhandled spec args m) := by
+  have key := D10.callUnrefined_unpredictable spec tf args hT
+  refine ⟨fun e => by rw [key, D10.mapOut_err_iff], fun u => ?_, fun u hu hc => ?_⟩
+  · rw [key, D10.mapOut_ok_iff]
+    exact ⟨fun ⟨t, h1, h2⟩ => ⟨t, h1, h2.symm⟩, fun ⟨t, h1, h2⟩ => ⟨t, h1, h2.symm⟩⟩
+  · rw [key, D10.mapOut_ok_iff] at hu
+    obtain ⟨t, _, rfl⟩ := hu
+    obtain ⟨_, _, c, d⟩ := withUnhandled_unknown (withUnhandled_withMarkSets hc (Value.unknown t))
+    exact ⟨c, d⟩
+
+/-! ### slice d10 — `Call` continues `ReturnTypeForValues` (the checked return type, as an equation) -/
+
+/-- The type `Call` works with IS the answer of `ReturnTypeForValues` on the same arguments: when that
+fails, `Call` fails with the same error after the same callback invocations; when it answers `t`, the
+trace of `Call` starts with the trace of `ReturnTypeForValues`, `Type` is not asked again, `Impl` — if
+invoked — is handed exactly `t`, and a failure of `Call` can then only come from `Impl`. -/
+theorem call_continues_rtfv (spec : Spec) (tf : TypeFn) (impl : ImplFn) (args : List Value) :
+    (∀ e, (returnTypeForValuesPub spec tf args).1 = .err e →
+      call spec tf impl args = (.err e, (returnTypeForValuesPub spec tf args).2)) ∧
+    (∀ t, (returnTypeForValuesPub spec tf args).1 = .ok t →
+      ∃ rest, (call spec tf impl args).2 = (returnTypeForValuesPub spec tf args).2 ++ rest ∧
+        (∀ as, Event.type as ∉ rest) ∧ (∀ as rt, Event.impl as rt ∈ rest → rt = t) ∧
+        (∀ e, (call spec tf impl args).1 = .err e → ∃ as rt, Event.impl as rt ∈ rest)) :=
+  D10.call_continues_rtfv spec tf impl args
+
+/-- When a dynamically-typed argument without `AllowDynamicType` short-circuits the call (it is the
+first argument to fail its checks), NO callback is invoked — neither by `ReturnTypeForValues`, which
+answers the placeholder type, nor by `Call`, whatever `RefineResult` declares. -/
+theorem dyn_shortcircuit_invokes_nothing (spec : Spec) (tf : TypeFn) (impl : ImplFn) (args : List Value) (k : Nat)
+    (hc : spec.countOK args.length = true) (hat : FirstFailAt spec args k .dynamic) :
+    returnTypeForValuesPub spec tf args = (.ok .dyn, []) ∧ (call spec tf impl args).2 = [] ∧
+    ∃ u, (call spec tf impl args).1 = .ok u ∧ u.ty = .dyn ∧ u.isKnown = false := by
+  refine ⟨by rw [rtfvPub_fail tf hc hat], ?_⟩
+  rw [call_eq_finish, callUnrefined_eq]
+  simp only [hc, if_true, firstFail_of_at hc hat]
+  rw [finish_ok]
+  have ht := typed_unknown_dyn (unhandledMarkSets spec args)
+  have hk : (withMarkSets (Value.unknown .dyn) (unhandledMarkSets spec args)).isKnown = false := by
+    rw [isKnown_withMarkSets]; rfl
+  have hty : (Value.unknown Ty.dyn).ty = Ty.dyn := rfl
+  cases spec.refine <;> simp [ht, withMarkSets_ty, hk, hty]
+
+/-- The `Type` callback is invoked by `Call` exactly when the argument count is acceptable and every
+argument passes its checks (and then on `typeArgs`, first). -/
+theorem type_invoked_iff (spec : Spec) (tf : TypeFn) (impl : ImplFn) (args : List Value) :
+    (∃ as, Event.type as ∈ (call spec tf impl args).2) ↔ spec.countOK args.length = true ∧ AllPass spec args := by
+  constructor
+  · rintro ⟨as, h⟩
+    obtain ⟨hc, hap, _⟩ := (callbacks_only_for_acceptable_args spec tf impl args).1 as h
+    exact ⟨hc, hap⟩
+  · rintro ⟨hc, hap⟩
+    refine ⟨typeArgs spec args, ?_⟩
+    have h1 : (returnTypeForValuesPub spec tf args).2 = [.type (typeArgs spec args)] := by
+      rw [rtfvPub_pass tf hc hap]; cases tf (typeArgs spec args) <;> rfl
+    cases hr : (returnTypeForValuesPub spec tf args).1 with
+    | err e => rw [(call_continues_rtfv spec tf impl args).1 e hr, h1]; simp
+    | ok t =>
+      obtain ⟨rest, h2, _⟩ := (call_continues_rtfv spec tf impl args).2 t hr
+      rw [h2, h1]; simp
+    | panic w => exact absurd hr (D10.rtfv_no_panic spec tf args w)
+    | unmodelled =>
+      rw [call_eq_finish, callUnrefined_eq]
+      rw [rtfvPub_pass tf hc hap] at hr
+      simp only [hc, if_true, firstFail_of_allPass hc hap]
+      cases ht : tf (typeArgs spec args) <;> rw [ht] at hr <;> simp at hr
+      simp [finish_unmodelled]
+
+/-! ### slice d10 — clause 6 under a placeholder checked type -/
+
+/-- "declared result refinements are applied to every typed result" ALSO when the checked return type
+is the placeholder: if `Type` answers `DynamicPseudoType` (a `jsondecode`/`lookup`-style function) and
+`Impl` returns a typed value `v` (known, or of a concrete type), `RefineResult` is invoked on `v` without
+its top-level marks, last, and `Call` returns what the builder makes of `v` with the unhandled marks. What
+decides is the type of the RESULT, not the checked type. -/
+theorem refinement_applied_under_placeholder_type (spec : Spec) (tf : TypeFn) (impl : ImplFn) (args : List Value)
+    (rf : RefineFn) (v : Value) (hr : spec.refine = some rf)
+    (hc : spec.countOK args.length = true) (hap : AllPass spec args) (hnb : ¬ SomeUnknownBlocked spec args)
+    (ht : tf (typeArgs spec args) = .ok .dyn) (hi : impl (implArgs spec args) .dyn = .ok v)
+    (hty : typed v = true) :
+    call spec tf impl args =
+      (refineWith rf (withUnhandled spec args v),
+        [.type (typeArgs spec args), .impl (implArgs spec args) .dyn, .refine v.unmark]) ∧
+    Event.refine v.unmark ∈ (call spec tf impl args).2 := by
+  have h := D10.call_placeholder_refined hr hc hap hnb ht hi hty
+  exact ⟨h, by rw [h]; simp⟩
+
+/-- The refinement is skipped only for a result that is BOTH unknown and of the placeholder type (and
+for errors): for a declared `RefineResult`, a `refine` event is in the trace iff the call yields a typed value. -/
+theorem refine_invoked_iff (spec : Spec) (tf : TypeFn) (impl : ImplFn) (args : List Value) (rf : RefineFn)
+    (hr : spec.refine = some rf) :
+    (∃ u, Event.refine u ∈ (call spec tf impl args).2) ↔
+      ∃ pre, (callUnrefined spec tf impl args).1 = .ok pre ∧ typed pre = true := by
+  obtain ⟨k, hk⟩ := callUnrefined_case spec tf impl args
+  have hnr := hk.no_refine_event
+  rw [call_eq_finish]
+  generalize callUnrefined spec tf impl args = o at hnr
+  obtain ⟨r, tr⟩ := o
+  cases r with
+  | ok u =>
+    rw [finish_ok]
+    by_cases ht : typed u = true
+    · simp [hr, ht]
+    · simp only [hr, ht, Bool.false_eq_true, if_false]
+      constructor
+      · rintro ⟨x, hx⟩; exact absurd hx (hnr x)
+      · rintro ⟨pre, h1, h2⟩; simp only [Out.ok.injEq] at h1; subst h1; exact absurd h2 ht
+  | err e => rw [finish_err]; simp; intro x hx; exact hnr x hx
+  | panic w => rw [finish_panic]; simp; intro x hx; exact hnr x hx
+  | unmodelled => rw [finish_unmodelled]; simp; intro x hx; exact hnr x hx
+
+/-! ### slice d10 — clause 4 after the refinement: the mark set, exactly -/
+
+/-- Representation invariant of `Impl`'s values (as `ArgsWF` for arguments): marker layers as cty's
+constructors build them. -/
+def ImplFnWF (impl : ImplFn) : Prop := ∀ as rt v, impl as rt = .ok v → v.v.markerWF = true
+
+/-- Representation invariant of the refinement builder: for a value without marks it hands back a
+value without marks (`NewValue` re-applies the marks the builder set aside — the model's `refineWith`
+does that). -/
+def RefinerWF (spec : Spec) : Prop := ∀ rf, spec.refine = some rf → RefinePayloadUnmarked rf
+
+/-- The top-level marks of EVERY successful result of `Call` — after the declared refinement — are
+exactly: the marks `Impl` put on its value (none for a short circuit) and the marks occurring at any
+depth of an argument whose parameter lacks `AllowMarked`.  Nothing is lost and nothing is invented. -/
+theorem result_marks_exact (spec : Spec) (tf : TypeFn) (impl : ImplFn) (args : List Value) (v : Value)
+    (hI : ImplFnWF impl) (hR : RefinerWF spec) (h : (call spec tf impl args).1 = .ok v) :
+    ((∀ as rt, Event.impl as rt ∉ (call spec tf impl args).2) ∧ ∀ m, m ∈ v.marks ↔ Unhandled spec args m) ∨
+    (∃ rt iv, Event.impl (implArgs spec args) rt ∈ (call spec tf impl args).2 ∧
+      impl (implArgs spec args) rt = .ok iv ∧ ∀ m, m ∈ v.marks ↔ (m ∈ iv.marks ∨ Unhandled spec args m)) := by
+  rw [call_eq_finish] at h ⊢
+  obtain ⟨k, o, ho, hk⟩ := callUnrefined_case' spec tf impl args
+  rw [ho] at h ⊢
+  cases hk with
+  | dynShort k' u hc hat hwu =>
+    refine Or.inl ⟨fun as rt hm => by simpa using mem_finish_trace_impl.mp hm, fun m => ?_⟩
+    rw [D10.finish_ok_marks hR (by rw [hwu.2.1]; rfl) h m]
+    exact (withUnhandled_unknown hwu).2.2.2 m
+  | unkShort rt u hc hap ht hb hwu =>
+    refine Or.inl ⟨fun as rt hm => by simpa using mem_finish_trace_impl.mp hm, fun m => ?_⟩
+    rw [D10.finish_ok_marks hR (by rw [hwu.2.1]; rfl) h m]
+    exact (withUnhandled_unknown hwu).2.2.2 m
+  | value rt v0 u hc hap ht hnb hi hcf hwu =>
+    refine Or.inr ⟨rt, v0, mem_finish_trace_impl.mpr (by simp), hi, fun m => ?_⟩
+    rw [D10.finish_ok_marks hR (by rw [hwu.2.1]; exact D10.unmark_not_marked_of_markerWF (hI _ _ _ hi)) h m]
+    exact hwu.2.2 m
+  | _ => simp [finish_err, finish_unmodelled] at h
+
+/-- The two invariants hold of everything the driver runs: its `RefineResult` menu (`b.NotNull()` as
+the builder performs it; a callback that panics) hands back unmarked payloads … -/
+theorem refinerWF_of_driver_menu (spec : Spec)
+    (h : spec.refine = none ∨ spec.refine = some (toRefineFn notNull) ∨ spec.refine = some (toRefineFn refinePanics)) :
+    RefinerWF spec := by
+  intro rf hr
+  rcases h with h | h | h <;> rw [h] at hr
+  · cases hr
+  · cases hr; exact D10.refinePayloadUnmarked_notNull
+  · cases hr; exact D10.refinePayloadUnmarked_panics
+
+/-- … and a constant `Impl` (the driver's `(ok val)` menu entry, `val` checked for `markerWF` like every
+value the harness sends) answers marker-well-formed values. -/
+theorem implFnWF_const (v : Value) (h : v.v.markerWF = true) : ImplFnWF (fun _ _ => .ok v) := by
+  intro as rt v' hv; simp only [Res.ok.injEq] at hv; subst hv; exact h
+
+/-! ### slice d10 — `RefinerValid` for `NotNull` (stdlib's `refineNonNull`): "Impl never returns null" -/
+
+/-- For a function that declares `RefineResult = func(b) { return b.NotNull() }` (what every stdlib
+function with a refinement but `coalesce`-style inline ones declares: `Generated.refineNonNullBody`,
+C11) the function author's obligation `RefinerValid` is, exactly: `Impl` does not return a typed value
+that is null (or an unknown value whose refinement says "definitely null", which cty's constructors
+never build).  A short circuit never violates it.  (`hmod`: the driver's transliteration of `NewValue`
+stays inside the modelled fragment — it answers `unmodelled` only for the one-element-set collapse,
+and the harness then does not compare.) -/
+theorem refinerValid_notNull_iff (spec : Spec) (tf : TypeFn) (impl : ImplFn) (args : List Value)
+    (hr : spec.refine = some (toRefineFn notNull))
+    (hmod : ∀ pre, (callUnrefined spec tf impl args).1 = .ok pre → notNull pre.unmark ≠ .unmodelled) :
+    RefinerValid spec tf impl args ↔
+      ∀ rt iv, Event.impl (implArgs spec args) rt ∈ (callUnrefined spec tf impl args).2 →
+        impl (implArgs spec args) rt = .ok iv → Ty.conformErrs rt iv.ty = 0 → typed iv = true →
+        ¬ NullOrDefinitelyNull iv.unmark := by
+  unfold RefinerValid
+  obtain ⟨k, o, ho, hk⟩ := callUnrefined_case' spec tf impl args
+  rw [ho] at hmod ⊢
+  constructor
+  · intro hv rt iv hev hi hcf hty hnull
+    cases hk with
+    | value rt' v0 u hc hap ht hnb hi' hcf' hwu =>
+      simp only [List.mem_cons, Event.impl.injEq, List.not_mem_nil, or_false, reduceCtorEq, false_or] at hev
+      obtain ⟨_, rfl⟩ := hev
+      rw [hi'] at hi; simp only [Res.ok.injEq] at hi; subst hi
+      have hpre : typed u = true := by rw [D10.typed_of_withUnhandled hwu]; exact hty
+      refine hv _ u hr rfl hpre ?_
+      rw [D10.toRefineFn_notNull_none_iff, hwu.2.1]
+      exact Or.inl hnull
+    | implErr rt' c _ _ _ _ hi' =>
+      simp only [List.mem_cons, Event.impl.injEq, List.not_mem_nil, or_false, reduceCtorEq, false_or] at hev
+      obtain ⟨_, rfl⟩ := hev; rw [hi'] at hi; cases hi
+    | implPanic rt' w _ _ _ _ hi' =>
+      simp only [List.mem_cons, Event.impl.injEq, List.not_mem_nil, or_false, reduceCtorEq, false_or] at hev
+      obtain ⟨_, rfl⟩ := hev; rw [hi'] at hi; cases hi
+    | implUnmodelled rt' _ _ _ _ hi' =>
+      simp only [List.mem_cons, Event.impl.injEq, List.not_mem_nil, or_false, reduceCtorEq, false_or] at hev
+      obtain ⟨_, rfl⟩ := hev; rw [hi'] at hi; cases hi
+    | nonconforming rt' v' w _ _ _ _ hi' hcf' =>
+      simp only [List.mem_cons, Event.impl.injEq, List.not_mem_nil, or_false, reduceCtorEq, false_or] at hev
+      obtain ⟨_, rfl⟩ := hev; rw [hi'] at hi; simp only [Res.ok.injEq] at hi; subst hi; exact absurd hcf hcf'
+    | _ => simp at hev
+  · intro h rf pre hrf hpre hty hnone
+    rw [hr] at hrf; simp only [Option.some.injEq] at hrf; subst hrf
+    rw [D10.toRefineFn_notNull_none_iff] at hnone
+    rcases hnone with hnull | hun
+    · cases hk with
+      | dynShort k' u hc hat hwu =>
+        simp only [Out.ok.injEq] at hpre; subst hpre
+        rw [hwu.2.1] at hnull; exact D10.notNull_unknown _ hnull
+      | unkShort rt u hc hap ht hb hwu =>
+        simp only [Out.ok.injEq] at hpre; subst hpre
+        rw [hwu.2.1] at hnull; exact D10.notNull_unknown _ hnull
+      | value rt v0 u hc hap ht hnb hi hcf hwu =>
+        simp only [Out.ok.injEq] at hpre; subst hpre
+        have hty0 : typed v0 = true := by rw [← D10.typed_of_withUnhandled hwu]; exact hty
+        rw [hwu.2.1] at hnull
+        exact h rt v0 (by simp) hi hcf hty0 hnull
+      | _ => simp at hpre
+    · exact hmod pre hpre hun
+
+
 /-! ### The regenerated model
 
 `extract/translate_fn.go` translates the bodies of `Function.returnTypeForValues`,
@@ -708,6 +1006,54 @@ theorem no_go_panic_generated (spec : Spec) (tf : TypeFn) (impl : ImplFn) (args 
   rw [generated_call_eq spec tf impl args argsNil hs]
   exact no_go_panic spec tf impl args hv why
 
+/-- The wrappers are not in the translated fragment; their source text is regenerated on every check
+and pinned here: `Proxy()` is `f.Call(args)`, `Unpredictable` replaces `Impl` in a shallow copy of the
+spec, `unpredictableImpl` answers `cty.UnknownVal(retType)` — what `Fn.proxy`, `Func.unpredictable` and
+`unpredictableImpl` of the model say (any edit of these three bodies makes this theorem fail). -/
+theorem wrappers_source_pinned :
+    Generated.FnCall.proxyBody = "{ return func(args ...cty.Value) (cty.Value, error) { return f.Call(args) } }" ∧
+    Generated.FnCall.unpredictableBody =
+      "{ newSpec := *f.spec newSpec.Impl = unpredictableImpl return New(&newSpec) }" ∧
+    Generated.FnCall.unpredictableImplBody = "{ return cty.UnknownVal(retType), nil }" := by decide
+
+/-- clause 5 about the translated source, at the three translated entry points: with acceptable
+arguments, a panic of the `Type` callback comes back as its `PanicError` from `Call`, from
+`ReturnTypeForValues` and from `ReturnType` as written (the seeded change that moved the `recover`
+into the public `ReturnTypeForValues` breaks the first equation) -/
+theorem type_panic_is_error_generated (spec : Spec) (tf : TypeFn) (impl : ImplFn) (args : List Value)
+    (argsNil : Bool) (hs : GoSlice args argsNil) (w : String)
+    (hc : spec.countOK args.length = true) (hap : AllPass spec args)
+    (ht : tf (typeArgs spec args) = .panic w) :
+    Generated.FnCall.call spec tf impl args argsNil = (.err (.panicError w), [.type (typeArgs spec args)]) ∧
+    Generated.FnCall.returnTypeForValuesPub spec tf args argsNil =
+      (.err (.panicError w), [.type (typeArgs spec args)]) := by
+  rw [generated_call_eq spec tf impl args argsNil hs, generated_returnTypeForValues_eq spec tf args argsNil hs]
+  exact ⟨D10.call_type_panic impl hc hap ht, D10.rtfv_type_panic hc hap ht⟩
+
+/-- … and `ReturnType` as written -/
+theorem type_panic_is_error_returnType_generated (spec : Spec) (tf : TypeFn) (tys : List Ty) (w : String)
+    (hc : spec.countOK (tys.map Value.unknown).length = true) (hap : AllPass spec (tys.map Value.unknown))
+    (ht : tf (typeArgs spec (tys.map Value.unknown)) = .panic w) :
+    Generated.FnCall.returnType spec tf tys =
+      (.err (.panicError w), [.type (typeArgs spec (tys.map Value.unknown))]) := by
+  rw [generated_returnType_eq]
+  exact D10.rtfv_type_panic hc hap ht
+
+/-- clause 6 about the translated source, under a placeholder checked type: the declared refinement is
+applied to a typed value of `Impl` although `Type` answered `DynamicPseudoType` (the seeded change that
+gated the refinement on the checked type breaks this) -/
+theorem refinement_applied_under_placeholder_type_generated (spec : Spec) (tf : TypeFn) (impl : ImplFn)
+    (args : List Value) (argsNil : Bool) (hs : GoSlice args argsNil)
+    (rf : RefineFn) (v : Value) (hr : spec.refine = some rf)
+    (hc : spec.countOK args.length = true) (hap : AllPass spec args) (hnb : ¬ SomeUnknownBlocked spec args)
+    (ht : tf (typeArgs spec args) = .ok .dyn) (hi : impl (implArgs spec args) .dyn = .ok v)
+    (hty : typed v = true) :
+    Generated.FnCall.call spec tf impl args argsNil =
+      (refineWith rf (withUnhandled spec args v),
+        [.type (typeArgs spec args), .impl (implArgs spec args) .dyn, .refine v.unmark]) := by
+  rw [generated_call_eq spec tf impl args argsNil hs]
+  exact (refinement_applied_under_placeholder_type spec tf impl args rf v hr hc hap hnb ht hi hty).1
+
 /-! ### Non-vacuity: concrete, non-trivial instances of the hypotheses used above -/
 
 /-- one positional `string` parameter allowing marks, and a variadic `list(dynamic)` parameter
@@ -756,6 +1102,53 @@ example : (call panicSpec panicTf panicImpl []).1.isPanic = true := by decide
 example : GoSlice sampleArgs false ∧ GoSlice [] true := ⟨(by intro h; cases h), fun _ => rfl⟩
 example : (Generated.FnCall.call sampleSpec sampleTf sampleImpl sampleArgs false).2.length = 3 := by decide
 example : (Generated.FnCall.call panicSpec panicTf panicImpl [] true).1.isPanic = true := by decide
+
+/-! slice d10: instances -/
+
+/-- a `jsondecode`-style function: one `string` parameter, `Type` answers the placeholder, `Impl` a
+known string, `RefineResult` = `b.NotNull()` as the driver runs it -/
+def dynSpec : Spec := { params := [{ ty := .string }], refine := some (toRefineFn notNull) }
+def dynTf : TypeFn := fun _ => .ok .dyn
+def dynImpl : ImplFn := fun _ _ => .ok ⟨.string, .s "decoded"⟩
+def dynArgs : List Value := [⟨.string, .marked ["secret"] (.s "\"decoded\"")⟩]
+/-- a `Type` callback that panics -/
+def boomTf : TypeFn := fun _ => .panic "boom"
+
+/-- the hypotheses of `refinement_applied_under_placeholder_type` are jointly satisfiable, and its
+conclusion evaluated: three callback invocations, the last one `RefineResult`; the result keeps the
+argument's mark -/
+example : dynSpec.countOK dynArgs.length = true ∧ dynTf (typeArgs dynSpec dynArgs) = .ok .dyn ∧
+    typed ⟨.string, .s "decoded"⟩ = true := ⟨by decide, rfl, by decide⟩
+example : (call dynSpec dynTf dynImpl dynArgs).2.length = 3 ∧
+    (match (call dynSpec dynTf dynImpl dynArgs).2.getLast? with
+     | some (.refine _) => true
+     | _ => false) = true ∧
+    (match (call dynSpec dynTf dynImpl dynArgs).1 with
+     | .ok v => v.marks == ["secret"] && v.isKnown
+     | _ => false) = true := by decide
+/-- the same function whose `Impl` returns null: the builder refuses (the recorded finding), so
+`RefinerValid` fails exactly as `refinerValid_notNull_iff` says -/
+example : (call dynSpec dynTf (fun _ _ => .ok (Value.null .string)) dynArgs).1.isPanic = true := by decide
+example : NullOrDefinitelyNull (Value.null .string).unmark := Or.inl rfl
+example : RefinerWF dynSpec := refinerWF_of_driver_menu dynSpec (Or.inr (Or.inl rfl))
+example : ImplFnWF dynImpl := implFnWF_const _ (by decide)
+/-- a panicking `Type` callback behind `Unpredictable` and `WithNewDescriptions`, at all four entry points -/
+def isPanicError {α} : Out α → Bool
+  | .err (.panicError _) => true
+  | _ => false
+example : [Entry.call, .proxy, .rtfv, .rt].all (fun e =>
+    isPanicError (wrapRun ⟨dynSpec, boomTf, dynImpl⟩ [.unpredictable, .redesc 1] e dynArgs).1) = true := by
+  decide
+example : wrappersOK dynSpec [.unpredictable, .redesc 1] = true ∧ wrappersOK dynSpec [.redesc 2] = false := by decide
+example : (wrapRun ⟨dynSpec, dynTf, dynImpl⟩ [.redesc 2] .call dynArgs).1.isPanic = true := by decide
+/-- `Unpredictable`: an unknown value of the checked type with the argument's mark -/
+example : (match (wrapRun ⟨dynSpec, fun _ => .ok .string, dynImpl⟩ [.unpredictable] .call dynArgs).1 with
+    | .ok (.val v) => !v.isKnown && (match v.ty with | .string => true | _ => false) && v.marks == ["secret"]
+    | _ => false) = true := by decide
+/-- the translated source on the placeholder instance: `RefineResult` invoked -/
+example : (Generated.FnCall.call dynSpec dynTf dynImpl dynArgs false).2.length = 3 := by decide
+example : (Generated.FnCall.call dynSpec boomTf dynImpl dynArgs false).1.isOk = false ∧
+    (Generated.FnCall.call dynSpec boomTf dynImpl dynArgs false).1.isPanic = false := by decide
 
 end C10
 end CtyModel
